@@ -265,6 +265,21 @@ spec fn post_emit_start_<'b>(pre: &ReaderState, post: &ReaderState, content: Seq
                 }
             }
 
+pub proof fn lemma_trimmed_start_skip(s: Seq<u8>, n: int)
+    requires 0 <= n <= s.len(), forall|j: int| 0 <= j < n ==> is_ws(#[trigger] s[j])
+    ensures trimmed_start(s.subrange(n, s.len() as int)) == trimmed_start(s)
+    decreases n
+{
+    if n == 0 {
+        assert(s.subrange(0, s.len() as int) =~= s);
+    } else {
+        let s1 = s.subrange(1, s.len() as int);
+        assert forall|j: int| 0 <= j < n - 1 implies is_ws(#[trigger] s1[j]) by { assert(is_ws(s[j + 1])); }
+        lemma_trimmed_start_skip(s1, n - 1);
+        assert(s1.subrange(n - 1, s1.len() as int) =~= s.subrange(n, s.len() as int));
+    }
+}
+
 /// the text of an owned decoded name, as it appears in error values (uninterpreted: outside the verified code)
 pub open spec fn dec_string(d: Decoder, bytes: Seq<u8>) -> String {
     spec_cow_into_owned(spec_unwrap_or_default(spec_decode(d, bytes)))
